@@ -22,6 +22,10 @@ SeedSet(n) == {<<s, "vers:" \o s \o "/" \o SeedTable[s][i][1], SeedTable[s][i][2
 \* one-constraint ranges (an implementation may treat them on a path of their own)
 SingleSeedSet == {<<s, "vers:" \o s \o "/" \o o \o SeedTable[s][1][2], SeedTable[s][2][2]>> : s \in SeedSchemes, o \in {">=", "<"}}
 
+\* ranges made of exclusions only, probed with the FIRST excluded version: an answer can be reached before the later
+\* constraints have been looked at, and still every constraint version has to be validated
+ExclSeedSet == {<<s, "vers:" \o s \o "/!=" \o SeedTable[s][1][2] \o "|!=" \o SeedTable[s][2][2] \o "|!=" \o SeedTable[s][3][2], SeedTable[s][1][2]>> : s \in SeedSchemes}
+
 NearMiss == {"debian", "go", "semver", "Npm", "npm2", "", "np m", "rubygems", "python", "deb.", "DEB", "n"}
 NearMissSet == {<<"npm", "vers:" \o n \o "/>=1.0.0|<2.0.0", "1.5.0">> : n \in NearMiss}
 
